@@ -21,20 +21,38 @@ Section RT.
   Variable FS : fs.
   Hypothesis FS_ok : forall f content, fs_lookup FS f = Some (FFile content) -> bytes_ok content.
 
+  (* every token of the stream has a property that every scanner step establishes and that error tokens and the
+     end-of-input token have; the scan stops at the end of the input or at an error token *)
+  Theorem lex_top_all (Q : ltoken -> Prop) :
+    (forall tk, lt_tok tk = TkError -> Q tk) -> (forall tk, lt_tok tk = TkEOF -> Q tk) ->
+    (forall incdir incf st b, cond_ok st -> b_rest b <> [] -> bytes_ok (b_rest b) ->
+       match lex_step ScannerCert.the_tables yy_rule_can_match_eol yy_actions atof FS incdir incf MAX_INCLUDE_DEPTH st b with
+       | STok tk _ _ => Q tk | _ => True end) ->
+    forall c top text, bytes_ok text ->
+    let '(toks, stop) := lex_top atof FS c top text in
+    (stop = StopEOB \/ stop = StopError) /\ has_stop (map lt_tok toks) /\ Forall Q toks.
+  Proof.
+    intros Qerr Qeof Qstep c top text Hb. unfold lex_top. rewrite tables_same.
+    pose proof (lex_depth_ok atof FS (c_incdir c) (c_incfn c) MAX_INCLUDE_DEPTH FS_ok Q Qerr (Qstep (c_incdir c) (c_incfn c))
+                  (Z.to_nat MAX_INCLUDE_DEPTH + 1) 0 (lstate0 top) text
+                  ltac:(vm_compute; split; discriminate) ltac:(vm_compute; reflexivity)
+                  (cond_ok_intro (lstate0 top) 0 eq_refl (or_introl eq_refl)) Hb eq_refl) as H.
+    destruct (lex_depth _ _ _ _ _ _ _ _ _ _ _) as [[[toks stop] st] line].
+    destruct H as [HQ [(-> & _ & _) | (-> & He)]].
+    - destruct (emit st line TkEOF None) as [tk st'] eqn:Ee. split; [left; reflexivity|].
+      pose proof (emit_tok st line TkEOF None) as (Ht & _). rewrite Ee in Ht. cbn [fst] in Ht.
+      split; [|apply Forall_app; split; [exact HQ | constructor; [apply Qeof; exact Ht | constructor]]].
+      unfold has_stop. rewrite map_app, existsb_app. cbn [map existsb]. rewrite Ht. cbn. apply orb_true_r.
+    - split; [right; reflexivity|]. split; [apply ends_error_has_stop; exact He | exact HQ].
+  Qed.
+
   Theorem lex_top_total c top text : bytes_ok text ->
     let '(toks, stop) := lex_top atof FS c top text in
     (stop = StopEOB \/ stop = StopError) /\ has_stop (map lt_tok toks).
   Proof.
-    intros Hb. unfold lex_top. rewrite tables_same.
-    pose proof (lex_depth_ok atof FS (c_incdir c) (c_incfn c) MAX_INCLUDE_DEPTH FS_ok (Z.to_nat MAX_INCLUDE_DEPTH + 1) 0 (lstate0 top) text
-                  ltac:(vm_compute; split; discriminate) ltac:(vm_compute; reflexivity)
-                  (cond_ok_intro (lstate0 top) 0 eq_refl (or_introl eq_refl)) Hb eq_refl) as H.
-    destruct (lex_depth _ _ _ _ _ _ _ _ _ _ _) as [[[toks stop] st] line].
-    destruct H as [(-> & _ & _) | (-> & He)].
-    - destruct (emit st line TkEOF None) as [tk st'] eqn:Ee. split; [left; reflexivity|].
-      unfold has_stop. rewrite map_app, existsb_app. cbn [map existsb].
-      pose proof (emit_tok st line TkEOF None) as (Ht & _). rewrite Ee in Ht. cbn [fst] in Ht. rewrite Ht. cbn. apply orb_true_r.
-    - split; [right; reflexivity | apply ends_error_has_stop; exact He].
+    intros Hb. pose proof (lex_top_all (fun _ => True) (fun _ _ => I) (fun _ _ => I)
+      ltac:(intros; destruct (lex_step _ _ _ _ _ _ _ _ _ _); exact I) c top text Hb) as H.
+    destruct (lex_top atof FS c top text) as [toks stop]. destruct H as (H1 & H2 & _). auto.
   Qed.
 
   Theorem config_read_total c top text : bytes_ok text ->
